@@ -2,6 +2,8 @@
 #include "nmv.hpp"
 #include "nmtools/utility/isequal.hpp"
 #include "nmtools/utility/isclose.hpp"
+#include "nmtools/utility/apply_isequal.hpp"
+#include "nmtools/utility/apply_isclose.hpp"
 #include "nmtools/array/view/reshape.hpp"
 #include "nmtools/array/view/flatten.hpp"
 using namespace nmv;
@@ -116,4 +118,80 @@ NMV_OP("isclose") {
         });
     });
 }
+#elif NMV_PART == 2
+// ---- applicative comparison (apply_isequal / apply_isclose): nested lists, fixed arrays, tuples, optionals ----
+// operand: {"form": F, "v": value}; forms: num, vec, vecvec, vecarr2, arr (len 1..3), tup (len 2..3), maybe_num, maybe_vec, maybe_vecvec (v may be null), nothing
+template <typename T> static T jnum(const J& j) { if constexpr (std::is_floating_point_v<T>) return (T)j.as_dbl(); else return (T)j.as_int(); }
+template <typename T> static std::vector<T> jvec(const J& j) { std::vector<T> v; for (auto& e : j.a) v.push_back(jnum<T>(e)); return v; }
+template <typename T> static std::vector<std::vector<T>> jvecvec(const J& j) { std::vector<std::vector<T>> v; for (auto& e : j.a) v.push_back(jvec<T>(e)); return v; }
+
+template <typename T, typename F>
+static void with_apply_operand(const J& o, F&& f) {
+    const std::string& form = o["form"].as_str();
+    const J& v = o["v"];
+    if (form == "num") return f(jnum<T>(v));
+    if (form == "vec") return f(jvec<T>(v));
+    if (form == "vecvec") return f(jvecvec<T>(v));
+    if (form == "vecarr2") { std::vector<std::array<T, 2>> r; for (auto& e : v.a) r.push_back({jnum<T>(e[0]), jnum<T>(e[1])}); return f(r); }
+    if (form == "arr") {
+        auto d = jvec<T>(v);
+        switch (d.size()) {
+            case 1: return f(std::array<T, 1>{d[0]});
+            case 2: return f(std::array<T, 2>{d[0], d[1]});
+            case 3: return f(std::array<T, 3>{d[0], d[1], d[2]});
+        }
+        throw std::runtime_error("arr length");
+    }
+    if (form == "tup") {
+        auto d = jvec<T>(v);
+        switch (d.size()) {
+            case 2: return f(std::tuple<T, T>{d[0], d[1]});
+            case 3: return f(std::tuple<T, T, T>{d[0], d[1], d[2]});
+        }
+        throw std::runtime_error("tup length");
+    }
+    if (form == "maybe_num") { if (v.is_null()) return f(nmtools_maybe<T>{}); return f(nmtools_maybe<T>{jnum<T>(v)}); }
+    if (form == "maybe_vec") { if (v.is_null()) return f(nmtools_maybe<std::vector<T>>{}); return f(nmtools_maybe<std::vector<T>>{jvec<T>(v)}); }
+    if (form == "maybe_vecvec") { if (v.is_null()) return f(nmtools_maybe<std::vector<std::vector<T>>>{}); return f(nmtools_maybe<std::vector<std::vector<T>>>{jvecvec<T>(v)}); }
+    if (form == "nothing") return f(meta::Nothing);
+    throw std::runtime_error("unknown form " + form);
+}
+
+template <typename X> struct is_std_vector : std::false_type {};
+template <typename E, typename A> struct is_std_vector<std::vector<E, A>> : std::true_type { using elem = E; };
+template <typename X> struct is_std_array : std::false_type {};
+template <typename E, size_t N> struct is_std_array<std::array<E, N>> : std::true_type { static constexpr size_t n = N; };
+template <typename X> struct is_std_tuple : std::false_type {};
+template <typename... E> struct is_std_tuple<std::tuple<E...>> : std::true_type { static constexpr size_t n = sizeof...(E); };
+
+// pairings the applicative comparison accepts (mirrored by apply_supported in nmv/props/c18.py)
+template <typename A, typename B> constexpr bool ap_supported() {
+    constexpr bool na = meta::is_nothing_v<A>, nb = meta::is_nothing_v<B>, ma = meta::is_maybe_v<A>, mb = meta::is_maybe_v<B>;
+    if constexpr (na && nb) return false;
+    else if constexpr (ma && mb) return ap_supported<meta::get_maybe_type_t<A>, meta::get_maybe_type_t<B>>();
+    else if constexpr ((ma && nb) || (na && mb)) return true;
+    else if constexpr (na || nb) return false;
+    else if constexpr (ma) return ap_supported<meta::get_maybe_type_t<A>, B>();
+    else if constexpr (mb) return ap_supported<A, meta::get_maybe_type_t<B>>();
+    else if constexpr (std::is_arithmetic_v<A> || std::is_arithmetic_v<B>) return std::is_arithmetic_v<A> && std::is_arithmetic_v<B>;
+    else if constexpr (is_std_vector<A>::value && is_std_vector<B>::value) return ap_supported<typename is_std_vector<A>::elem, typename is_std_vector<B>::elem>();
+    else if constexpr (is_std_vector<A>::value) return std::is_arithmetic_v<typename is_std_vector<A>::elem>;       // fixed array / tuple of numbers vs list of numbers
+    else if constexpr (is_std_vector<B>::value) return std::is_arithmetic_v<typename is_std_vector<B>::elem>;
+    else {
+        return std::tuple_size_v<A> == std::tuple_size_v<B>;
+    }
+}
+
+#define NMV_APPLY_OP(NAME, T, FN) \
+NMV_OP(NAME) { \
+    with_apply_operand<T>(A["a"], [&](const auto& a) { \
+        with_apply_operand<T>(A["b"], [&](const auto& b) { \
+            using TA = meta::remove_cvref_t<decltype(a)>; using TB = meta::remove_cvref_t<decltype(b)>; \
+            if constexpr (!ap_supported<TA, TB>()) w.key("unsupported").str("pairing rejected at compile time"); \
+            else w.key("r").boolean((bool)nm::utils::FN(a, b)); \
+        }); \
+    }); \
+}
+NMV_APPLY_OP("apply_isequal", int, apply_isequal)
+NMV_APPLY_OP("apply_isclose", double, apply_isclose)
 #endif
